@@ -1171,6 +1171,9 @@ func TrickyShapes() []*Shape {
 			&Shape{Kind: KObject, ID: "Mid", Struct: "P3", Props: []*Prop{p("inner", ref("Leaf")), p("pinner", ref("Leaf")), p("n", &Shape{Kind: KInt})}},
 			&Shape{Kind: KObject, ID: "Leaf", Struct: "P1", Props: []*Prop{{Name: "a", T: &Shape{Kind: KInt}, Default: jsonText(int64(10))}, {Name: "b", T: str(), Default: jsonText("fast")},
 				p("c", &Shape{Kind: KFloat}), p("d", &Shape{Kind: KBool})}}),
+		// a finite chain of single-property objects that passes through two DIFFERENT objects with the same ID (the
+		// inner scope's Box shadows the outer one): a lone value is shorthand all the way down
+		scope("Box", obj("Box", p("content", scope("Content", obj("Content", p("box", ref("Box"))), obj("Box", p("n", &Shape{Kind: KInt})))))),
 		// finite defaults that pass through the same defaulted object twice (side by side, and as list items)
 		scope("Twice", obj("Twice", &Prop{Name: "pair", T: ref("Pair"), Default: jsonText(map[string]any{"p": map[string]any{}, "q": map[string]any{}})}),
 			obj("Pair", p("p", ref("Leaf")), p("q", ref("Leaf"))), obj("Leaf", &Prop{Name: "z", T: &Shape{Kind: KInt}, Default: jsonText(int64(1))})),
